@@ -36,6 +36,7 @@ class CFG:
         self.nodes = []
         self.node_of = {}  # id(ast stmt) -> node id (test node for If/While, header for For)
         self.loops = {}  # id(loop stmt) -> Loop
+        self.back_edges = set()  # (src, head): edges closing a loop (they keep their branch label)
         self.entry = self._new("entry")
         self.exit = self._new("exit")
         self.raise_exit = self._new("raise_exit")
@@ -112,7 +113,8 @@ class CFG:
             self._connect(frontier, n)
             if not self._loop_stack:
                 raise AnalysisError(self.rule, where(st), "continue outside loop")
-            self._edge(n, self._loop_stack[-1]["head"], "back")
+            self._edge(n, self._loop_stack[-1]["head"], "continue")
+            self.back_edges.add((n, self._loop_stack[-1]["head"]))
             return []
         if isinstance(st, ast.If):
             t = self._new("test", st)
@@ -135,7 +137,8 @@ class CFG:
             self._loop_stack.append({"head": h, "breaks": []})
             ends = self._block(st.body, [(h, "true")])
             for src, lab in ends:
-                self._edge(src, h, "back")
+                self._edge(src, h, lab)
+                self.back_edges.add((src, h))
             info = self._loop_stack.pop()
             const_true = isinstance(st.test, ast.Constant) and bool(st.test.value) is True
             out = []
@@ -156,7 +159,8 @@ class CFG:
             self._loop_stack.append({"head": h, "breaks": []})
             ends = self._block(st.body, [(h, "true")])
             for src, lab in ends:
-                self._edge(src, h, "back")
+                self._edge(src, h, lab)
+                self.back_edges.add((src, h))
             info = self._loop_stack.pop()
             out = []
             if st.orelse:
@@ -207,7 +211,7 @@ class CFG:
         for lp in self.loops.values():
             h = lp.head
             # natural loop: nodes that can reach a back-edge source without passing through head
-            back_srcs = [p for p, lab in self.nodes[h].pred if lab == "back"]
+            back_srcs = sorted({p for p, lab in self.nodes[h].pred if (p, h) in self.back_edges})
             body = {h}
             stack = list(back_srcs)
             while stack:
